@@ -54,8 +54,34 @@ def make_rg(rng):
         return alg, (shape,), kw, lambda: RGM.PoonDomingos(shape, **kw)
     n = rng.randint(2, 6)
     data = torch.tensor(np.array([[rng.randrange(3) for _ in range(n)] for _ in range(30)]))
+    if n >= 3 and rng.random() < 0.4:
+        # a product design: two groups of features that are EXACTLY independent in the sample (estimated mutual information 0.0)
+        n1 = rng.randint(1, n - 1)
+        A = [[rng.randrange(3) for _ in range(n1)] for _ in range(rng.choice([3, 4]))]
+        B = [[rng.randrange(3) for _ in range(n - n1)] for _ in range(rng.choice([3, 4]))]
+        rows = [a + b for a in A for b in B]
+        cols = list(range(n))
+        rng.shuffle(cols)
+        data = torch.tensor(np.array(rows)[:, cols])
     kw = {"input_type": "categorical", "num_categories": 3, "root": rng.choice([None, 0, n - 1]), "as_region_graph": True}
-    return alg, (n,), kw, lambda: RGM.ChowLiuTree(data, **kw)
+    if rng.random() < 0.4:
+        # continuous features: generic data, or designs whose feature groups are exactly uncorrelated in the sample
+        import itertools as _it
+        kw = {"input_type": "gaussian", "root": rng.choice([None, 0, n - 1]), "as_region_graph": True}
+        style = rng.choice(["generic", "factorial", "product"])
+        if style == "factorial" and n <= 4:
+            rows = [list(r) for r in _it.product([-1.0, 1.0], repeat=n)] * rng.choice([1, 2])
+        elif style == "product" and n >= 3:
+            n1 = rng.randint(1, n - 1)
+            A = [[rng.randint(-8, 8) / 4 for _ in range(n1)] for _ in range(4)]
+            B = [[rng.randint(-8, 8) / 4 for _ in range(n - n1)] for _ in range(4)]
+            rows = [a + b for a in A for b in B]
+        else:
+            rows = [[rng.randint(-16, 16) / 4 for _ in range(n)] for _ in range(24)]
+        data = torch.tensor(np.array(rows, dtype=np.float64)).to(torch.get_default_dtype())
+        kw["_style"] = style
+    kw2 = {k: v for k, v in kw.items() if not k.startswith("_")}
+    return alg, (n,), kw, lambda: RGM.ChowLiuTree(data, **kw2)
 
 
 def canon_rg(rg):
